@@ -28,6 +28,7 @@ def step' (st : St) : List String → St × String
   | ["fund", u, n] => match n.toInt? with
     | some n => ({ st with s := { st.s with srcA := upd st.s.srcA u (st.s.srcA u + n) }, funded := (u, n) :: st.funded }, "ok")
     | none => (st, "bad-op")
+  | ["beginbad", _, _, _, _] => (st, "err")      -- token of neither channel
   | ["begin", id, u, n, _route] => match n.toInt? with
     | some n =>
       -- a begin under an id with completion/cancellation history is outside the theorem's hypothesis
